@@ -501,7 +501,7 @@ func replay(path string) {
 		}
 		s.eof, s.cutAt, s.seg = i%2 == 0, 0, ""
 		// a sample: one segment boundary at every offset of the stream
-		if every := 101; (hx.Thorough() && i%11 == 0) || i%every == 0 {
+		if every := 307; (hx.Thorough() && i%61 == 0) || i%every == 0 {
 			probe := s
 			_, frames, _, _ := run(&probe)
 			total := 0
@@ -515,7 +515,7 @@ func replay(path string) {
 			s.seg = ""
 		}
 		// a sample: one envelope (first, middle, last) padded to a size around the 4096 mark, to 16 KiB, to nearly 64 KiB
-		if every := 37; (hx.Thorough() && i%5 == 0) || i%every == 0 {
+		if every := 151; (hx.Thorough() && i%41 == 0) || i%every == 0 {
 			k := len(v.Lens)
 			for _, pos := range uniq([]int{1, (k + 1) / 2, k}) {
 				for _, size := range []int{4095, 4096, 4097, 4098, 16384, 65000} {
